@@ -1059,6 +1059,17 @@ example : Holds { exInput .x509 ["tsa:alpha", "ca:gamma"] with
 /-- a value whose name part is a path names no store: nothing it could resolve to counts -/
 example : (run (exInput .x509 ["ca:../tsa/alpha", "ca:alpha"])).result = .fail := by decide
 
+/-- a statement scoped to an ENCLOSING path (reg.example/ns for reg.example/ns/app) does not apply:
+the wildcard statement does, with its stores - and without a wildcard statement none does -/
+example : (run { exInput .x509 [] with
+      repo := "reg.example/ns/app".toList
+      statements := [⟨["reg.example/ns".toList], ["ca:alpha".toList], .strict, false⟩,
+                     ⟨["*".toList], ["ca:gamma".toList], .strict, false⟩] }) =
+    { result := .fail, calls := [⟨"ca".toList, "gamma".toList⟩], accepted := false } := by decide
+example : (run { exInput .x509 [] with
+      repo := "reg.example/ns/app".toList
+      statements := [⟨["reg.example/ns".toList], ["ca:alpha".toList], .strict, false⟩] }).result = .noPolicy := by decide
+
 end examples
 
 /-TIE-BEGIN-/
